@@ -36,10 +36,15 @@ MANIFEST = dict(
          'which must contain the five names of the property - or under a folder matched by an already-read '
          '.gitignore folder entry; every .py/.pyi file whose ancestors are not pruned is yielded), gitignored_paths / '
          'expand_relative_ignore_paths, the open/parse limits of search_in_file_ios (exact prefix characterisation), '
-         'split_search_string, the final filter of search_in_module and _try_to_skip_duplicates. The unrestricted '
-         'statements that are false of the code have kernel-checked counter-witnesses (file-level .gitignore entries '
-         'never applied; string-prefix test prunes under a sibling). Tie: translator + correspondence on generated '
-         'project trees on disk + direct completeness / negative oracles from generator knowledge.',
+         'split_search_string, the final filter of search_in_module and _try_to_skip_duplicates. Since the fix '
+         '"gitignore-file-entries-and-prefix" the .gitignore statements hold at full strength and are theorems for all '
+         'trees, listing orders and .gitignore contents: absolute and relative entries of the .gitignore of the root or '
+         'of any directory on the way exclude the folders and the files they name, wherever .gitignore stands in its '
+         'listing; conversely a python file that no .gitignore at or above its directory names (and no ignore folder / '
+         'except path covers) is yielded, whatever other .gitignore files the tree holds (separator-aware test = '
+         'ancestor-or-self on name chains); every tree position is yielded at most once. Tie: translator (accepts only '
+         'the fixed source shape) + correspondence on generated project trees on disk + direct completeness / negative '
+         'oracles from generator knowledge; the three former defects stay in the run as fixed probes.',
     note='Modelled not verified: os.walk / os.scandir (listing order is a parameter, the shim and the real order are '
          'both exercised), pathlib suffix (checked stream), the regex pre-filter (parameter `mentions`), '
          'get_module_names (the generator supplies the definitions it wrote), str.lower (parameter), step 3 of '
@@ -54,8 +59,9 @@ PROPERTY_IGNORED = ('venv', '.venv', '.tox', '.mypy_cache', '__pycache__')
 
 
 def _load_own_known(ctx):
-    """known_findings.d/C19.json is merged into known_findings.json at commit time by
-    tools/mkknown.py; read it here too so the check is self-contained before the merge."""
+    """known_findings.d/C19.json is the authoritative list for this property: entries of the merged
+    known_findings.json that are no longer listed there (moved to `fixed`) must not mask a
+    violation that comes back."""
     import json
     p = os.path.join(common.VERIF, 'known_findings.d', 'C19.json')
     try:
@@ -63,6 +69,8 @@ def _load_own_known(ctx):
             own = json.load(f).get('findings', [])
     except FileNotFoundError:
         return
+    ids = {k['id'] for k in own}
+    ctx.known[:] = [k for k in ctx.known if k.get('property') != ctx.pid or k['id'] in ids]
     have = {k['id'] for k in ctx.known}
     ctx.known += [k for k in own if k['id'] not in have and k['property'] == ctx.pid]
 
@@ -405,7 +413,7 @@ def ignored_reason(t, relpath):
 
 
 def sibling_prefix_cause(t, relpath):
-    """is some ancestor directory P/n of the file named by a slash-less entry `n` of a .gitignore
+    """is some ancestor directory P/n of the file (or the file itself) named by a slash-less entry `n` of a .gitignore
     whose folder G is a proper string prefix of P without being P or an ancestor of P?"""
     parts = relpath.split('/')
     gi = []
@@ -416,7 +424,7 @@ def sibling_prefix_cause(t, relpath):
                     b = e.rstrip('/')
                     if b and '/' not in b:
                         gi.append((rel, b))
-    for i in range(len(parts) - 1):
+    for i in range(len(parts)):           # the ancestors and (file-level entries) the file itself
         parent = '/'.join(parts[:i])
         name = parts[i]
         for g, b in gi:
@@ -791,8 +799,12 @@ def search_oracle(ctx, t, root, case, q, complete, all_scopes, parse_limit, impl
         why = ignored_reason(t, rel)
         if why is not None:
             top_mod = typ == 'module' and (rel.count('/') == 0 or (rel.count('/') == 1 and rel.endswith('/__init__.py')))
+            # a package whose folder is not in an ignored place, only its __init__.py is named by an entry
+            pkg_init = (typ == 'module' and rel.endswith('/__init__.py') and not top_mod
+                        and ignored_reason(t, rel[:-len('__init__.py')] + '\x00') is None)
             ctx.fail('search-negative', 'result from an ignored place',
-                     dict(case, cause=why[0], rule=why[1], file=rel, result_type=typ, top_level_module=top_mod),
+                     dict(case, cause=why[0], rule=why[1], file=rel, result_type=typ, top_level_module=top_mod,
+                          package_with_ignored_init=pkg_init),
                      expected='nothing reported from %s (%s)' % (rel, why[1]),
                      observed={'path': rel, 'line': line, 'name': name, 'type': typ}, how=how)
     # ---- completeness
@@ -927,6 +939,12 @@ def probe_trees():
             _f('.gitignore', 'ign_rel.py\n'), _f('ign_rel.py'), _f('m.py', 'omega_x = 1\n')]}, 'zeta_a', False),
         ('absolute-file', {'name': '', 'dirs': [{'name': 'zz', 'dirs': [], 'files': [_f('ign_abs.py')]}], 'files': [
             _f('.gitignore', '/zz/ign_abs.py\n'), _f('m.py', 'omega_x = 1\n')]}, 'zeta_a', False),
+        ('absolute-file-same-dir', {'name': '', 'dirs': [], 'files': [
+            _f('.gitignore', '/ign_abs.py\n'), _f('ign_abs.py'), _f('m.py', 'omega_x = 1\n')]}, 'zeta_a', False),
+        ('relative-file-nested', {'name': '', 'files': [_f('k.py', 'omega_x = 1\n')], 'dirs': [
+            {'name': 'a', 'files': [_f('.gitignore', 'ign_rel.py\n')], 'dirs': [
+                {'name': 'b', 'files': [_f('ign_rel.py'), _f('n.py')], 'dirs': []}]},
+            {'name': 'ab', 'files': [_f('ign_rel.py')], 'dirs': []}]}, 'zeta_a', False),
         ('sibling-prefix', {'name': '', 'files': [_f('k.py', 'omega_x = 1\n')], 'dirs': [
             {'name': 'a', 'files': [_f('.gitignore', 'foo\n')], 'dirs': [
                 {'name': 'foo', 'files': [_f('m.py')], 'dirs': []}]},
@@ -947,6 +965,11 @@ def stream_probes(ctx, reqs):
             root = materialise(t)
             roots.append(root)
             run_search_case(ctx, t, q, complete, False, 30, mode, reqs, cases, root=root)
+            impl = run_walk_impl(root, mode, ())
+            reqs.append(walk_request(root, mode, ()))
+            case = {'tree': strip_tree(t), 'mode': mode, 'except_paths': [], 'probe': label}
+            cases.append((('walk', case, root), impl))
+            walk_oracle(ctx, t, root, mode, (), impl, case)
     return cases, roots
 
 
@@ -973,6 +996,7 @@ def stream_corpus(ctx, reqs):
                 reqs.append(walk_request(root, mode, ()))
                 case = {'tree': strip_tree(t), 'mode': mode, 'except_paths': [], 'corpus': fn}
                 cases.append((('walk', case, root), impl))
+                walk_oracle(ctx, t, root, mode, (), impl, case)
         elif item.get('kind') == 'gitignore':
             from jedi.inference import references
             from jedi.file_io import FolderIO
@@ -1091,7 +1115,8 @@ def run(ctx):
     ctx.obligations['assumptions'] = [
         'os.walk / os.scandir: top-down, dirs and non-dirs in one listing order, descends into what is left in `dirs`; '
         'the order is a parameter of the model (the real order and three forced orders are exercised); no symlinks',
-        'pathlib.PurePath.suffix / .name (modelled, stream suffix); Path objects and str never compare equal',
+        'pathlib.PurePath.suffix / .name (modelled, stream suffix); str(Path(p)) == p for the paths os.walk joins '
+        '(normalised project root), so the str comparison of the code is string equality on model paths',
         '.gitignore contents are ASCII (bytes.decode(utf-8, ignore) is the identity)',
         'the regex pre-filter of _check_fs is the parameter `mentions`; get_module_names/_remove_imports/.type are '
         'the generator-known definitions of the generated files (assignments, def, async def, class, for, params)',
